@@ -236,7 +236,6 @@ type c12Sim struct {
 
 func c12NewSim(path *c12Path, profile Profile, maxPkts int64) *c12Sim {
 	s := &c12Sim{path: path, profile: profile, maxPkts: maxPkts, now: c12StartTime, largestAcked: -1, lastMode: -1, sendCap: -1, untilPN: -1}
-	s.flight, s.rx = c12FlightBuf[:0], c12RxBuf[:0]
 	s.rtt = c12NewRTT()
 	s.qSize, s.ccSize = path.QuicSize, path.Seed
 	seed := congestion.ByteCount(path.Seed)
@@ -790,6 +789,8 @@ func c12Run(c *c12Case) (res c12Result) {
 	var s *c12Sim
 	val, stack := evidence.Catch(func() {
 		s = c12NewSim(c12PathOf(c.Path), Profile(c.Profile), c.MaxPkts)
+		s.flight, s.rx = c12FlightBuf[:0], c12RxBuf[:0]
+		c12FlightBuf, c12RxBuf = nil, nil
 		res.sim = s
 		if c.RTTs > 0 {
 			R := s.path.unit()
